@@ -34,6 +34,8 @@ for d in sorted(glob.glob("/verif/seeded/*")):
     suite = next((e.get("suite_passes_with_patch") for e in reversed(ev) if "suite_passes_with_patch" in e), "?")
     title = (m.get("title") or m.get("what_breaks") or "")[:110].replace("|", "/")
     cb = ", ".join(caught_by) or "**none**"
+    if m.get("note_invalid"):
+        cb = cb + " (not a valid seed: the repository's suite fails with it - TestConnectionWrite hangs)"
     if m.get("note_neutralised"):
         cb = "n/a - neutralised by a later fix: commit (demo passes with the patch on the current tree)"
     rows.append("| %s | %s | %s | %s | %s | %s | %s |" % (os.path.basename(d), m.get("property"), title, demo, suite, cb, ", ".join(p for p in initially_missed if p in caught_by) or "-"))
